@@ -1,12 +1,14 @@
 #!/bin/sh
-# regenerate lean/MockeryModel/Generated from the current /repo working tree (development aid)
-cd /verif && python3 - <<'P'
+# regenerate lean/MockeryModel/Generated from the current working tree of $VERIF_REPO (default /repo) (development aid)
+V=$(cd "$(dirname "$0")/.." && pwd)
+cd "$V" && python3 - "$V" <<'P'
 import sys,subprocess
-sys.path.insert(0,'/verif')
+V=sys.argv[1]
+sys.path.insert(0,V)
 from vlib import common as C
 snap=C.Snapshot().ensure()
 exe=snap.build("verifx")
 if not exe: print(snap.build_errors); sys.exit(1)
-r=subprocess.run([exe,"-src",snap.src,"-out","/verif/lean/MockeryModel/Generated"],capture_output=True,text=True)
+r=subprocess.run([exe,"-src",snap.src,"-out",V+"/lean/MockeryModel/Generated"],capture_output=True,text=True)
 print(r.stdout, r.stderr)
 P
